@@ -88,9 +88,9 @@ CHECKS = {
     ),
     "C07": dict(
         engine="crowdsim",
-        technique=TECH + "crowd-labelling histories with annotator-availability faults (annotators off-line, pairs blocked, no answer) under all documented argument representations; per-call invariant monitor; line-count fuel for the liveness clause",
-        text="A multi-annotator strategy (SingleAnnotatorWrapper around every classification strategy of the pool registry, IntervalEstimationThreshold) is driven through several crowd-labelling cycles on a label matrix that fills up. Per cycle the scheduler decides which annotators are off-line, which pairs are blocked, whether a queried annotator answers, how availability and candidates are expressed (None, index array, boolean matrix, feature rows), the batch size and the annotators-per-sample request. Every call must return within a deterministic step budget; the result must be k = min(batch_size, available pairs) pairwise distinct available pairs; utilities must have the documented shape, be NaN at unavailable and already chosen pairs and a number at the chosen pair; an annotators-per-sample request (integer or per-rank array) must be met for every selected sample but the last where the selected samples offer enough pairs.",
-        note="Availability is what the arguments say (documented table). Strategies that need the position of candidates in X are not given feature-row candidates (documented refusal). A share of the runs uses string class names with missing_label=None. Known findings: IntervalEstimationThreshold returns fewer pairs; Badge and Quire as wrapped strategies raise once every offered sample carries some annotator's label; QueryByCommittee and EpistemicUncertaintySampling as wrapped strategies cannot handle string class names.",
+        technique=TECH + "crowd-labelling histories with annotator-availability faults (annotators off-line, pairs blocked, no answer) under all documented argument representations; per-call invariant monitor; line-count fuel for the liveness clause; in a share of the runs two caller threads are inside query on the same strategy object under a baton scheduler with seeded pre-emption at line events",
+        text="A multi-annotator strategy (SingleAnnotatorWrapper around every classification strategy of the pool registry, IntervalEstimationThreshold) is driven through several crowd-labelling cycles on a label matrix that fills up. Per cycle the scheduler decides which annotators are off-line, which pairs are blocked, whether a queried annotator answers, how availability and candidates are expressed (None, index array, boolean matrix, feature rows), the batch size and the annotators-per-sample request. Every call must return within a deterministic step budget; the result must be k = min(batch_size, available pairs) pairwise distinct available pairs; utilities must have the documented shape, be NaN at unavailable and already chosen pairs and a number at the chosen pair; an annotators-per-sample request (integer or per-rank array) must be met for every selected sample but the last where the selected samples offer enough pairs. In about 4 % of the runs a second caller thread calls query on the same strategy object with other arguments while the first call is pre-empted at seeded line counts (real threads, one baton, exact replay); each of the two overlapping calls is judged by the same oracle against its own arguments.",
+        note="Availability is what the arguments say (documented table). Strategies that need the position of candidates in X are not given feature-row candidates (documented refusal). A share of the runs uses string class names with missing_label=None. Known findings: IntervalEstimationThreshold returns fewer pairs; Badge and Quire as wrapped strategies raise once every offered sample carries some annotator's label; QueryByCommittee and EpistemicUncertaintySampling as wrapped strategies cannot handle string class names. Overlapping calls are only generated for wrapped strategies whose own query keeps no per-call state on the object and are never compared with a sequential result.",
         design="4/C07",
     ),
 }
